@@ -132,6 +132,10 @@ func (o Options) fromBytesCheckEnd(data []byte, checkEndOption bool) error {
 			break
 		}
 		length := int(buf.Read8())
+		if err := buf.Error(); err != nil {
+			// the option code was the last byte: no length byte
+			return fmt.Errorf("error collecting options: %v", err)
+		}
 
 		// N bytes: option data
 		data := buf.Consume(length)
